@@ -2,11 +2,20 @@
 
 # emitted (in lib.rs) for every type a unit uses that no active unit wraps
 TYPE_EXT = {
+    'Heap': '#[verifier::external_type_specification] #[verifier::external_body] pub struct ExHeap(crate::vm::heap::Heap);',
+    'Stack': '#[verifier::external_type_specification] #[verifier::external_body] pub struct ExStack(crate::vm::stack::Stack);',
+    'GlobalEnvironment': '#[verifier::external_type_specification] #[verifier::external_body] pub struct ExGlobalEnvironment(crate::vm::environment::GlobalEnvironment);',
+    'StackTrace': '#[verifier::external_type_specification] #[verifier::external_body] pub struct ExStackTrace(crate::vm::trace::StackTrace);',
+    'VCell': '''#[verifier::external_type_specification] #[verifier::external_body] pub struct ExVCell(crate::vm::vcell::VCell);
+pub assume_specification [<crate::vm::vcell::VCell as Clone>::clone] (a: &crate::vm::vcell::VCell) -> (r: crate::vm::vcell::VCell) ensures r == *a;''',
+    'Cell': '#[verifier::external_type_specification] #[verifier::external_body] pub struct ExCell(crate::cell::Cell);',
+    'Error': '#[verifier::external_type_specification] #[verifier::external_body] pub struct ExError(crate::error::Error);',
 }
 
 # verus groups: one Verus run each
 GROUPS = {
     'num': ['number'],
+    'run': ['vm_struct', 'run'],
 }
 
 PROPS = {
@@ -17,6 +26,14 @@ PROPS = {
                 'f64 arithmetic is uninterpreted: the 2^-50 relative error bound of inexact fallbacks is not decided',
                 'machine integers are NOT treated as mathematical: Verus checks i64/i32/u32 overflow bit-exactly',
                 'results built inside closures passed to Option::map (float arms of quotient / %) are opaque to Verus',
+            ]},
+    'C13': {'groups': ['run'], 'search': 'search_run',
+            'assumptions': [
+                'run_one is a deterministic function of the observable machine state (heap, globals, stack, acc, ep, ip, bp): step_obs/step_kind/step_err are uninterpreted and run_one is assumed to implement them (its body is not verified here)',
+                'run_gc leaves the observable state unchanged (this is property C03, assumed for C13)',
+                'output and global effects happen inside run_one, i.e. are part of the step function; equal step sequences give equal effects',
+                'Vm::run() = run_count(usize::MAX).map(unwrap): the closure is opaque to Verus, the equality run == one slice of budget usize::MAX is by reading',
+                'prepare_eval is not under contract (compiler); rand/time builtins excluded by the property',
             ]},
     'C09': {'groups': ['num'], 'search': 'search_num',
             'assumptions': [
